@@ -380,3 +380,125 @@ for _k in (0, 1, 2):
         ensures = {
             'every-field-holds-a-supported-value': lambda ip, result: fields_supported(ip, result),
         }
+
+
+# ------------------------------------------------------------------------------------------ containers, one level, longer
+# The container writers / readers (serialize_seq/map/set, deserialize_seq/map/set) executed for real with the ELEMENT encodings
+# under the inverse-pair contract: lengths up to 8, mixed element types (the c13_serializer variants execute the real leaf codecs
+# too, for lengths 0..2).  The length dimension stays bounded; element values are unbounded.
+def mixed_elements(E, n, tag):
+    out = []
+    for i in range(n):
+        k = i % 5
+        if k == 0:
+            out.append(E.int('%s_i%d' % (tag, i)))
+        elif k == 1:
+            out.append(ostr(E, '%s_s%d' % (tag, i)))
+        elif k == 2:
+            out.append(None)
+        elif k == 3:
+            out.append(new(E, 'F2', a=E.int('%s_a%d' % (tag, i)), b=ostr(E, '%s_b%d' % (tag, i))))
+        else:
+            out.append(E.enum(MOD + '.Suit', '%s_m%d' % (tag, i)))
+    return out
+
+
+def distinct_ints(E, n, tag):
+    xs = [E.int('%s%d' % (tag, i)) for i in range(n)]
+    for i in range(n):
+        for j in range(i):
+            E.assume(S.term(xs[i]) != S.term(xs[j]))
+    return xs
+
+
+def container_value(E, kind, n):
+    if kind == 'list':
+        return PyList(mixed_elements(E, n, 'e'))
+    if kind == 'tuple':
+        return tuple(mixed_elements(E, n, 'e'))
+    if kind == 'set':
+        return PySet(distinct_ints(E, n, 'e'))
+    d = PyDict()
+    d.keys = distinct_ints(E, n, 'k')
+    d.vals = mixed_elements(E, n, 'v')
+    return d
+
+
+def same_container(v, r):
+    if isinstance(v, tuple):            # tuples come back as lists
+        v = PyList(list(v))
+    return same(v, r)
+
+
+def replay_containers(label, model):
+    return '''
+import sys, io
+from mpgameserver.serializable import Serializable, SerializableEnum, serialize_value, deserialize_value
+class Suit(SerializableEnum):
+    LOW = -3
+    CLUBS = 0
+    SPADES = 7
+class F2(Serializable):
+    a: int = 0
+    b: str = ""
+def eq(x, y):
+    if isinstance(x, tuple): x = list(x)
+    if type(x) is not type(y): return False
+    if isinstance(x, SerializableEnum): return x.value == y.value
+    if isinstance(x, Serializable): return all(eq(getattr(x, f), getattr(y, f)) for f in x._fields)
+    if isinstance(x, list): return len(x) == len(y) and all(eq(a, b) for a, b in zip(x, y))
+    if isinstance(x, dict): return len(x) == len(y) and all(k in y and eq(v, y[k]) for k, v in x.items())
+    return x == y
+def elems(n): return [[i * 1000 - 7, "s%d" % i, None, F2(a=-i, b="b%d" % i), Suit.SPADES][i % 5] for i in range(n)]
+values = []
+for n in range(0, 12):
+    values += [elems(n), tuple(elems(n)), set(range(-3, n - 3)), {k - 2: v for k, v in enumerate(elems(n))}]
+bad = []
+for v in values:
+    try:
+        s = io.BytesIO(); serialize_value(s, v); enc = s.getvalue()
+        r = io.BytesIO(enc + b"tail"); w = deserialize_value(r)
+        if not eq(v, w): bad.append("%r decoded as %r" % (v, w))
+        elif r.tell() != len(enc): bad.append("%r: %d bytes written, %d consumed" % (v, len(enc), r.tell()))
+    except Exception as e:
+        bad.append("%r: %r" % (v, e))
+for b in bad[:6]: print(b[:300])
+print("%d of %d containers do not survive the round trip" % (len(bad), len(values)))
+sys.exit(1 if bad else 0)
+'''
+
+
+for _kind in ('list', 'tuple', 'set', 'dict'):
+    for _n in (0, 1, 2, 3, 5, 8):
+        @contract('serializable.deserialize_value', props=['C13'], variant='roundtrip-%s-of-%d-elements' % (_kind, _n))
+        class _:
+            def setup(E, _kind=_kind, _n=_n):
+                ip = E.ip
+                s = new_stream(E)
+                x = container_value(E, _kind, _n)
+                try:
+                    ip.call_function(ip.repo.func('serializable.serialize_value'), [s, x], {}, force_body=True)
+                except PyExc:
+                    raise PathEnd()
+                E.ghost('enc_len', S.term(ops.bytes_len(s.buf), 'int'))
+                E.ghost('value', x)
+                r = new_stream(E, ops.bytes_concat([s.buf, E.bytes('rest')]))
+                return {'stream': r, '__kwargs__': {'registry': registry_for(E)}}
+            hooks = HOOKS
+            replay = replay_containers
+            ensures = {
+                'decodes-to-an-equal-value': lambda result, ghost: same_container(ghost.value, result),
+                'consumes-exactly-the-encoding': lambda stream, ghost: S.bool(S.term(stream.pos, 'int') == ghost.enc_len),
+            }
+
+        @contract('serializable.serialize_value', props=['C13'], variant='accepts-%s-of-%d-elements' % (_kind, _n))
+        class _:
+            """the writer does not refuse a container below the length limit (so the round trip above is not vacuous)"""
+            def setup(E, _kind=_kind, _n=_n):
+                return dict(stream=new_stream(E), value=container_value(E, _kind, _n))
+            hooks = HOOKS
+            replay = replay_containers
+            may_raise = []
+            finish = expose_chunks
+            ensures = {'length-and-every-element-written-once': lambda chunks, value: len(chunks) == 1 + (
+                2 * len(value.keys) if isinstance(value, PyDict) else len(value.items if hasattr(value, 'items') else value))}
